@@ -86,6 +86,13 @@ W4nOps == Call("load", {K("N0","c")}) \cup {Simple("hot_reload"), NotifyOp({File
 W4xOps == Call("load", {K("N0","c")}) \cup Call("remove", {K("N0","c")}) \cup {Simple("hot_reload"), NotifyOp({FileE("b","x")}),
           EditOp(F("c","y"), CRef("b")), EditOp(F("b","x"), CVal(2))}
 
+(* W4s / W4t: the re-wiring histories of W4n / W4r on a 'static cache (enhance_hot_reloading): the passes run *)
+(* when the events arrive, hot_reload() is not involved ------------------------------------------------------ *)
+W4sOps == Call("load", {K("N0","c")}) \cup {Simple("enhance"), NotifyOp({FileE("c","y")}), NotifyOp({FileE("b","x")}),
+          EditOp(F("c","y"), CRef("b")), EditOp(F("b","x"), CVal(2))}
+W4tOps == Call("load", {K("N0","c")}) \cup {Simple("enhance"), NotifyOp({FileE("c","y")}), NotifyOp({FileE("a","x")}),
+          EditOp(F("c","y"), CRef("b")), EditOp(F("a","x"), CVal(3))}
+
 (* W4d: the shortest histories that re-wire and edit in one batch (D8) ------- *)
 W4dOps == Call("load", {K("L0","b"), K("N0","c")}) \cup {Simple("hot_reload"), NotifyOp({FileE("c","y"), FileE("b","x")}),
           EditOp(F("c","y"), CRef("b")), EditOp(F("b","x"), CVal(2))}
